@@ -20,7 +20,7 @@ func init() {
 
 func (c10) ID() string { return "C10" }
 
-const c10Variants = 10
+const c10Variants = 11
 
 var c10Programs = []string{
 	"a && b\n", "a || b\n", "case x in a) b;; esac\n", "a >>f\n", "a >|f\n", "a <<E\nb\nE\n", "a <<-E\n\tb\nE\n", "a <>f\n", "a <&3\n", "a >&2\n", "((x))\n", "$((1))\n",
@@ -128,6 +128,9 @@ func c10Variant(v int, salt uint64) gosim.ReaderPlan {
 	case 8:
 		// one failure, after which the source reports end of input
 		return gosim.ReaderPlan{Kind: "scanner", FaultAt: -2, FaultKind: "once-then-eof"}
+	case 10:
+		// the failing ReadRune delivers the rune together with the error
+		return gosim.ReaderPlan{Kind: "scanner", FaultAt: -2, FaultKind: []string{"persistent", "once-then-eof"}[salt/11%2], RuneWithErr: true}
 	default:
 		// an io.Reader that is also an io.WriterTo (like *os.File)
 		return gosim.ReaderPlan{Kind: "reader+writerto", FaultAt: -2, FaultKind: "persistent", Chunk: []int{0, 3}[salt/10%2]}
